@@ -357,7 +357,7 @@ def c16(ctx):
     # constructors only store
     for c in S.constructors:
         b = F.bodies[c]
-        calls = [t for _, t in b.calls() if not t.get('exp') and decl(t) != 'std::default::Default::default']
+        calls = [t for _, t in b.calls() if not t.get('exp') and decl(t) != 'std::default::Default::default' and callee_of(t) not in S.constructors]
         if calls:
             out.fail('C16/ctor-calls/%s' % key_of(b), 'constructor %s calls %s instead of only storing its arguments' % (key_of(b), res(calls[0])), b.where())
     out.floor('sources', len(sources), 85 if not ctx.fixture else 0)
@@ -923,3 +923,239 @@ def c05_affine(ctx):
                 out.fail(key, '%s: closure parameter %s %s - the move checker no longer forbids a second evaluation on the same element' % (key_of(b), p, why), b.where())
     out.floor('closure_bounds', n, 30 if not ctx.fixture else 0)
     return out
+
+
+# ======================================================================================= C14-SERIAL
+CONITER_CTORS = {'into_con_iter', 'con_iter', 'into_con_iter_x', 'into_exact_con_iter'}
+LAZY_ADAPTORS = {'map', 'filter', 'filter_map', 'flat_map', 'flatten', 'inspect', 'take_while', 'skip_while', 'map_while', 'scan', 'zip', 'chain',
+                 'peekable', 'fuse', 'enumerate', 'by_ref', 'rev', 'skip', 'take', 'step_by', 'cloned', 'copied', 'cycle', 'intersperse_with'}
+
+
+def user_closure_values(ctx, b, term):
+    """sub-terms of `term` that are user closures of the chain: parameters / fields / captures whose type is a type
+    parameter of the body with an Fn* bound (or crate closures that capture one)"""
+    fb = b.fn_bounds()
+    found = []
+    seen = set()
+    st = [term]
+    while st:
+        x = st.pop()
+        if x is None or x in seen:
+            continue
+        seen.add(x)
+        if x[0] == 'param':
+            nm = x[1]
+            for l in b.arg_locals():
+                if (b.local_name(l) or '_%d' % l) == nm and local_type_param(b, l) in fb:
+                    found.append((x, local_type_param(b, l)))
+            if nm.startswith('cap:'):
+                # captured by a closure body: the capture's type is not listed; resolve through the parent when inlined
+                pass
+        elif x[0] == 'field':
+            info = ctx.opa.field_info.get(x) or ctx.opa0.field_info.get(x)
+            if info and info[1] in fb:
+                found.append((x, info[1]))
+        if x[0] == 'call':
+            # only *lazy* constructions keep their closure arguments inside the value they return; any other call
+            # (a kernel, collect, ...) consumes them and returns data
+            m = term_method(x)
+            c_ = term_callee(x)
+            lazy = (c_.startswith(ITER) and m in LAZY_ADAPTORS) or m in ('into_seq_iter', 'into_iter', 'iter', 'from_fn', 'successors', 'repeat_with', 'once_with') \
+                or m in CONITER_CTORS
+            if not lazy:
+                continue
+        st.extend(children(x))
+    return found
+
+
+@rule('C14-SERIAL', 'no closure of the chain is moved into the source of a concurrent iterator (it would run inside the serialised pull section)')
+def c14_serial(ctx):
+    out = RuleOut('C14-SERIAL')
+    F = ctx.facts
+    n = 0
+    for b in F.fn_bodies():
+        sites = [(bb, t) for bb, t in b.calls() if not t.get('exp') and (method(t) in CONITER_CTORS or 'ConIterOfIter' in res(t))]
+        if not sites:
+            continue
+        r = ctx.run(b.name)
+        for bb, t in sites:
+            c = r.calls.get(bb)
+            if c is None or not c['args']:
+                continue
+            n += 1
+            key = 'C14-SERIAL/%s/%s' % (key_of(b), method(t))
+            ucs = []
+            for a in c['args']:
+                ucs += user_closure_values(ctx, b, a)
+            out.inst(key, not ucs, t_str(c['args'][0])[:100], sample={'fn': key_of(b), 'source': t_str(c['args'][0])[:160]})
+            for (x, tp) in ucs[:1]:
+                out.fail(key, '%s builds a concurrent iterator over %s, which contains the chain\'s closure %s (type parameter %s): the closure would run inside the '
+                              'dependency\'s serialised pull section - one thread at a time, and a panic there leaves the section locked so that the other '
+                              'workers spin for ever (the terminal call hangs instead of panicking)' % (key_of(b), t_str(c['args'][0])[:120], t_str(x), tp),
+                         b.where(t.get('line')))
+    out.floor('con_iter_constructions', n, 10 if not ctx.fixture else 0)
+    return out
+
+
+# ======================================================================================= C06-GROW
+FIXED_HEADS = ('adt:orx_fixed_vec::FixedVec',)
+BOUNDED_APPENDS = {'push', 'extend', 'extend_from_slice', 'insert', 'append', 'push_get_ptr', 'extend_from_nonoverlapping', 'push_within_capacity'}
+
+
+def _head(h):
+    while h.startswith('ref:'):
+        h = h[4:]
+    return h
+
+
+@rule('C06-GROW', 'nothing is appended onto a FixedVec target directly (it cannot grow: a target without spare capacity would panic)')
+def c06_grow(ctx):
+    out = RuleOut('C06-GROW')
+    F = ctx.facts
+    n = 0
+    # generic appenders: crate fns that append through a type parameter (P: PinnedVec)
+    generic = {}
+    for b in F.fn_bodies():
+        for bb, t in b.calls():
+            sh = t.get('self_head') or ''
+            if method(t) in BOUNDED_APPENDS and _head(sh).startswith('param:') and 'PinnedVec' in (t.get('trait') or ''):
+                generic.setdefault(F.root_of(b).name, _head(sh)[6:])
+    for b in F.fn_bodies():
+        for bb, t in b.calls():
+            if t.get('exp'):
+                continue
+            sh = _head(t.get('self_head') or '')
+            if sh in FIXED_HEADS:
+                n += 1
+                key = 'C06-GROW/%s/%s' % (key_of(b), method(t))
+                ok = method(t) not in BOUNDED_APPENDS
+                out.inst(key, ok, res(t), sample={'fn': key_of(b), 'call_on_fixed_vec': res(t)})
+                if not ok:
+                    out.fail(key, '%s appends with %s directly onto a FixedVec: a FixedVec never grows, so a target without enough spare capacity '
+                                  'makes collect_into panic (and lose the previous contents) instead of returning them followed by the new elements; '
+                                  'append through the inner Vec (into_inner .. into)' % (key_of(b), res(t)), b.where(t.get('line')))
+            c_ = callee_of(t)
+            if c_ in generic:
+                root = F.bodies.get(c_)
+                tps = root.d.get('type_params', []) if root is not None else []
+                targs = t.get('targs', [])
+                tp = generic[c_]
+                if tp in tps and tps.index(tp) < len(targs) and targs[tps.index(tp)].startswith('orx_fixed_vec::FixedVec'):
+                    n += 1
+                    key = 'C06-GROW/%s/%s' % (key_of(b), strip_generics(c_).split('::')[-1])
+                    out.inst(key, False, 'generic appender instantiated with FixedVec')
+                    out.fail(key, '%s instantiates the appending kernel %s with a FixedVec output: it pushes onto a vector that cannot grow' % (key_of(b), strip_generics(c_)), b.where(t.get('line')))
+    out.count('generic_appenders', len(generic))
+    out.floor('fixed_vec_calls', n, 2 if not ctx.fixture else 0)
+    return out
+
+
+# ======================================================================================= C12-NOSET
+@rule('C12-NOSET', 'the library never re-parameterises a computation itself: setters are called by users only, Params::with_* by setters only')
+def c12_noset(ctx):
+    out = RuleOut('C12-NOSET')
+    F = ctx.facts
+    S = ctx.slots
+    setters = set(S.setters)
+    n = 0
+    for b in F.fn_bodies():
+        root = F.root_of(b)
+        for bb, t in b.calls():
+            if t.get('exp'):
+                continue
+            d = decl(t)
+            c_ = callee_of(t)
+            m = method(t)
+            is_setter_call = (d.startswith(PAR_TRAIT + '::') and m in ('num_threads', 'chunk_size')) or c_ in setters
+            is_with = m in ('with_num_threads', 'with_chunk_size') and 'Params' in (res(t) or '')
+            if is_setter_call:
+                n += 1
+                key = 'C12-NOSET/%s/%s' % (key_of(b), m)
+                out.inst(key, False, res(t))
+                out.fail(key, '%s calls the setter %s on a computation: a stage then runs under parameters the user did not choose '
+                              '(the user\'s num_threads / chunk_size must be in effect for every stage, including eagerly materialised ones)' % (key_of(b), m),
+                         b.where(t.get('line')))
+            elif is_with:
+                n += 1
+                key = 'C12-NOSET/%s/%s' % (key_of(b), m)
+                ok = root.name in setters
+                out.inst(key, ok, 'Params::%s in %s' % (m, key_of(root)), sample={'fn': key_of(b), 'call': res(t)})
+                if not ok:
+                    out.fail(key, '%s changes a Params value with %s outside the setters' % (key_of(b), m), b.where(t.get('line')))
+    out.floor('params_updates', n, 8 if not ctx.fixture else 0)
+    return out
+
+
+# ======================================================================================= C05-DRIVE
+SKIPPING_CONSUMERS = {'len', 'is_empty', 'size_hint'}
+
+
+@rule('C05-DRIVE', 'an iterator chain that carries a user closure is never consumed by a terminal that answers without running it (len, size_hint, is_empty)')
+def c05_drive(ctx):
+    out = RuleOut('C05-DRIVE')
+    F = ctx.facts
+    n = 0
+    n_chain = 0
+    for b in F.fn_bodies():
+        cand = [(bb, t) for bb, t in b.calls() if not t.get('exp') and method(t) in SKIPPING_CONSUMERS and
+                (decl(t).startswith(ITER) or 'ExactSizeIterator' in decl(t) or 'DoubleEndedIterator' in decl(t))]
+        if not cand:
+            continue
+        r = ctx.run(b.name)
+        root = F.root_of(b)
+        for bb, t in cand:
+            c = r.calls.get(bb)
+            if c is None or not c['args']:
+                continue
+            n += 1
+            x = c['args'][0]
+            carried = []
+            guard = 0
+            while x is not None and x[0] == 'call' and guard < 16:
+                guard += 1
+                m = term_method(x)
+                if not (term_callee(x).startswith(ITER) and m in LAZY_ADAPTORS) and m not in ('into_iter', 'iter', 'by_ref'):
+                    break
+                for a in x[2][1:]:
+                    if closure_is_user(ctx, b, root, a):
+                        carried.append((m, a))
+                x = x[2][0] if x[2] else None
+            if carried:
+                n_chain += 1
+            key = 'C05-DRIVE/%s/%s' % (key_of(b), method(t))
+            out.inst(key, not carried, t_str(c['args'][0])[:100], sample={'fn': key_of(b), 'consumer': method(t), 'chain': t_str(c['args'][0])[:160]})
+            if carried:
+                m, a = carried[0]
+                out.fail(key, '%s consumes %s with `%s`, which answers from the length of the underlying iterator without ever calling the closure %s '
+                              'of the `%s` stage: that closure runs zero times per element' % (key_of(b), t_str(c['args'][0])[:120], method(t), t_str(a)[:60], m),
+                         b.where(t.get('line')))
+    out.count('skipping_consumers', n)
+    out.count('on_closure_chains', n_chain)
+    return out
+
+
+def closure_is_user(ctx, b, root, a):
+    """is the value `a` (an argument of a lazy adaptor in body b) a closure of the user's chain, or a crate closure that calls one"""
+    if a is None:
+        return False
+    fb = b.fn_bounds()
+    if a[0] == 'param':
+        nm = a[1]
+        if nm.startswith('cap:'):
+            nm2 = nm[4:].lstrip('*')
+            for l in root.arg_locals():
+                if root.local_name(l) == nm2 and local_type_param(root, l) in fb:
+                    return True
+            return False
+        for l in b.arg_locals():
+            if (b.local_name(l) or '_%d' % l) == nm and local_type_param(b, l) in fb:
+                return True
+        return False
+    if a[0] == 'field':
+        info = ctx.opa.field_info.get(a) or ctx.opa0.field_info.get(a)
+        return bool(info and info[1] in fb)
+    if a[0] == 'closure':
+        return any(closure_is_user(ctx, b, root, x) for x in a[2])
+    if a[0] == 'call' and term_method(a) in ('deref', 'borrow', 'as_ref', 'clone'):
+        return closure_is_user(ctx, b, root, a[2][0]) if a[2] else False
+    return False
